@@ -92,6 +92,15 @@ let init () =
   register "ok_tri_contains" (function
     | [a; b; c; d; e; f; qx; qy] -> v (triangle_contains_ok (pt a b) (pt c d) (pt e f) (pt qx qy))
     | _ -> "BAD-ARGS");
+  let bo b ch bl = baseline_offset (match b with "0" -> BTop | "1" -> BBottom | "2" -> BMiddle | _ -> BAlphabetic) (z_in ch) (z_in bl) in
+  register "ok_measure" (function
+    | [x; y; b; n; ul; cw; ch; sp; bl; uo; uh] ->
+        v (measure_string_ok (pt x y) (bo b ch bl) (z_in cw) (z_in sp) (z_in n) (z_in uo) (z_in uh) (ul = "1"))
+    | _ -> "BAD-ARGS");
+  register "ok_draw_plain" (function
+    | [x; y; b; n; ul; cw; ch; sp; bl; uo; uh] ->
+        v (draw_string_plain_ok (pt x y) (bo b ch bl) (z_in cw) (z_in sp) (z_in n))
+    | _ -> "BAD-ARGS");
   register "ok_line_height" (function
     | [k; x; base] -> v (line_height_ok (k = "1") (z_in x) (z_in base))
     | _ -> "BAD-ARGS");
